@@ -1,7 +1,7 @@
 """MIR-level inlining of private helper functions (DESIGN §7.2: rules follow calls inside the crate with an inlining
 bound of 8 levels and 400 blocks per function).
 
-A *helper* is a module-private (not `pub`, not `pub(crate)`) free or inherent function of the crate that is not a trait
+A *helper* is a module-private free or inherent function of the crate, or a `pub(crate)` free function, that is not a trait
 impl method, is not address-taken (never used as a function pointer), is not recursive and does not itself call one of
 the anchoring primitives from which the rule roles are located (ready-queue enqueue/dequeue, waker registration /
 notification, raw alloc/dealloc, atomic RMWs, vtable / raw-waker construction, layout construction).  Every direct
@@ -68,8 +68,11 @@ def helper_set(j):
         f = fns.get(path)
         if f is None:
             continue
-        if not f["vis"].startswith("in "):
-            continue           # pub / pub(crate): part of a module interface
+        private = f["vis"].startswith("in ")
+        crate_free_fn = f["vis"] == "crate" and f.get("impl") is None and not f.get("effective_pub")
+        if not (private or crate_free_fn):
+            continue           # pub items and pub(crate) methods are module interfaces (roles are anchored on them);
+                               # a pub(crate) free function is a shared helper
         if path.startswith("<"):
             continue           # trait impl method
         if "::_::" in path:
@@ -161,6 +164,55 @@ def _remap_block(blk, loff, boff):
         t["succ"] = [x + boff for x in t.get("succ", [])]
 
 
+def _subst_local(blk, frm, to):
+    """Rename local `frm` to `to` in one (already remapped) block."""
+    def pl(p):
+        if p["l"] == frm:
+            p["l"] = to
+        for e in p["p"]:
+            if e["k"] == "index" and e["local"] == frm:
+                e["local"] = to
+
+    def op(o):
+        if o["k"] in ("copy", "move"):
+            pl(o["place"])
+
+    def rv(r):
+        k = r["k"]
+        if k in ("use", "cast", "repeat"):
+            op(r["op"])
+        elif k in ("ref", "rawptr", "discr"):
+            pl(r["place"])
+        elif k == "binop":
+            op(r["a"])
+            op(r["b"])
+        elif k == "unop":
+            op(r["a"])
+        elif k == "aggregate":
+            for o in r["ops"]:
+                op(o)
+    for s_ in blk["stmts"]:
+        if s_["k"] == "assign":
+            pl(s_["place"])
+            rv(s_["rv"])
+        elif s_["k"] == "setdiscr":
+            pl(s_["place"])
+    t = blk["term"]
+    k = t["k"]
+    if k == "switch":
+        op(t["discr"])
+    elif k == "drop":
+        pl(t["place"])
+    elif k in ("call", "tailcall"):
+        op(t["func"])
+        for a in t["args"]:
+            op(a)
+        if k == "call":
+            pl(t["dest"])
+    elif k == "assert":
+        op(t["cond"])
+
+
 def inline_body(b, helpers, bodies, stats):
     """Inline helper calls in body JSON `b` (in place)."""
     depth = {i: 0 for i in range(len(b["blocks"]))}
@@ -189,14 +241,20 @@ def inline_body(b, helpers, bodies, stats):
                                      "rv": {"k": "use", "op": copy.deepcopy(a)}, "span": t["span"]})
             dest = t["dest"]
             target = t["target"]
+            # a plain destination local takes the place of the callee's return local (the callee's `_0 = ..` become
+            # assignments to the destination itself); a projected destination receives a final move
+            direct = not dest["p"]
             for cj, cblk in enumerate(c["blocks"]):
                 nb = copy.deepcopy(cblk)
                 _remap_block(nb, loff, boff)
+                if direct:
+                    _subst_local(nb, loff, dest["l"])
                 ct = nb["term"]
                 if ct["k"] == "return":
-                    nb["stmts"].append({"k": "assign", "place": copy.deepcopy(dest),
-                                        "rv": {"k": "use", "op": {"k": "move", "place": {"l": loff, "p": [], "ty": c["locals"][0]}}},
-                                        "span": ct["span"]})
+                    if not direct:
+                        nb["stmts"].append({"k": "assign", "place": copy.deepcopy(dest),
+                                            "rv": {"k": "use", "op": {"k": "move", "place": {"l": loff, "p": [], "ty": c["locals"][0]}}},
+                                            "span": ct["span"]})
                     if target is None:
                         nb["term"] = {"k": "unreachable", "span": ct["span"]}
                     else:
@@ -316,6 +374,97 @@ def expand_value_combinator(b, i, stats):
     blk["term"] = {"k": "switch", "discr": {"k": "move", "place": {"l": dl, "p": [], "ty": "isize"}}, "targets": targets,
                    "otherwise": unreach, "span": span, "inlined": f["fn"].get("def")}
     stats["<value>" + f["fn"].get("def")] = stats.get("<value>" + f["fn"].get("def"), 0) + 1
+    return True
+
+
+def _next_fn(iter_ty, item_ty):
+    """The `Iterator::next` callee record for an iterator type, named as rustc resolves it for a `for` loop."""
+    res = "core::iter::Iterator::next"
+    if iter_ty.startswith("core::ops::Range<"):
+        res = "core::iter::range::<impl core::iter::Iterator for core::ops::Range<A>>::next"
+    elif iter_ty.startswith("core::ops::RangeInclusive<"):
+        res = "core::iter::range::<impl core::iter::Iterator for core::ops::RangeInclusive<A>>::next"
+    elif iter_ty.startswith("core::slice::IterMut<"):
+        res = "<core::slice::IterMut<'a, T> as core::iter::Iterator>::next"
+    elif iter_ty.startswith("core::slice::Iter<"):
+        res = "<core::slice::Iter<'a, T> as core::iter::Iterator>::next"
+    elif iter_ty.startswith("core::iter::Enumerate<"):
+        res = "<core::iter::Enumerate<I> as core::iter::Iterator>::next"
+    return {"k": "const", "ty": "fn(&mut %s) -> core::option::Option<%s>" % (iter_ty, item_ty),
+            "fn": {"def": "core::iter::Iterator::next", "def_args": [iter_ty], "def_str": "<%s as core::iter::Iterator>::next" % iter_ty,
+                   "krate": "core", "local": False, "trait": "core::iter::Iterator", "self_ty": iter_ty, "res": res, "res_local": False,
+                   "res_shim": "item", "synthetic": True}}
+
+
+def expand_for_each(b, i, closures, stats):
+    """`iter.for_each(closure)` with a crate closure becomes the `for` loop it is defined as: next() / Some -> closure body /
+    None -> drop the closure and continue after the call."""
+    blk = b["blocks"][i]
+    t = blk["term"]
+    f = t["func"]
+    if not (f["k"] == "const" and "fn" in f and f["fn"].get("def") == "core::iter::Iterator::for_each"):
+        return False
+    if t["target"] is None or len(t["args"]) != 2:
+        return False
+    it, cl = t["args"]
+    if it["k"] != "move" or it["place"]["p"] or cl["k"] != "move" or cl["place"]["p"]:
+        return False
+    cd = _closure_def(b, cl["place"]["l"])
+    if cd is None or cd[0] not in closures:
+        return False
+    c = closures[cd[0]]
+    if c["arg_count"] != 2 or len(b["blocks"]) + len(c["blocks"]) + 8 > MAX_BLOCKS:
+        return False
+    span = t["span"]
+    target = t["target"]
+    iter_ty = it["place"]["ty"]
+    item_ty = c["locals"][2]
+    opt_ty = "core::option::Option<%s>" % item_ty
+    cplace = cl["place"]
+
+    def new_local(ty):
+        b["locals"].append(ty)
+        return len(b["locals"]) - 1
+
+    def new_block(stmts, term):
+        b["blocks"].append({"stmts": stmts, "term": term, "cleanup": False})
+        return len(b["blocks"]) - 1
+
+    def assign(place, rv):
+        return {"k": "assign", "place": copy.deepcopy(place), "rv": rv, "span": span}
+    rl = new_local("&mut " + iter_ty)
+    nl = new_local(opt_ty)
+    dl = new_local("isize")
+    unreach = new_block([], {"k": "unreachable", "span": span})
+    exit_blk = new_block([assign(t["dest"], {"k": "use", "op": {"k": "const", "ty": "()", "s": "()"}})],
+                         {"k": "drop", "place": copy.deepcopy(cplace), "needs_drop": True, "target": target, "unwind": None, "span": span})
+    head = new_block([assign({"l": rl, "p": [], "ty": "&mut " + iter_ty}, {"k": "ref", "mut": True, "place": copy.deepcopy(it["place"])})], None)
+    sw = new_block([assign({"l": dl, "p": [], "ty": "isize"}, {"k": "discr", "place": {"l": nl, "p": [], "ty": opt_ty}, "variants": OPTION})], None)
+    b["blocks"][head]["term"] = {"k": "call", "func": _next_fn(iter_ty, item_ty),
+                                 "args": [{"k": "move", "place": {"l": rl, "p": [], "ty": "&mut " + iter_ty}}],
+                                 "dest": {"l": nl, "p": [], "ty": opt_ty}, "target": sw, "unwind": t.get("unwind"), "span": span}
+    # closure body
+    loff = len(b["locals"])
+    b["locals"].extend(c["locals"])
+    env_by_ref = c["locals"][1].startswith("&")
+    envp = {"l": loff + 1, "p": [], "ty": c["locals"][1]}
+    pre = [assign(envp, {"k": "ref", "mut": c["locals"][1].startswith("&mut"), "place": copy.deepcopy(cplace)}) if env_by_ref
+           else assign(envp, {"k": "use", "op": {"k": "move", "place": copy.deepcopy(cplace)}})]
+    pre.append(assign({"l": loff + 2, "p": [], "ty": item_ty},
+                      {"k": "use", "op": {"k": "move", "place": {"l": nl, "p": [{"k": "downcast", "variant": "Some", "idx": 1},
+                                                                               {"k": "field", "i": 0, "name": "0", "ty": item_ty}], "ty": item_ty}}}))
+    boff = len(b["blocks"]) + 1
+    entry = new_block(pre, {"k": "goto", "target": boff, "span": span})
+    for cblk in c["blocks"]:
+        nb = copy.deepcopy(cblk)
+        _remap_block(nb, loff, boff)
+        if nb["term"]["k"] == "return":
+            nb["term"] = {"k": "goto", "target": head, "span": nb["term"]["span"]}
+        b["blocks"].append(nb)
+    b["blocks"][sw]["term"] = {"k": "switch", "discr": {"k": "move", "place": {"l": dl, "p": [], "ty": "isize"}},
+                               "targets": [["0", exit_blk], ["1", entry]], "otherwise": unreach, "span": span}
+    blk["term"] = {"k": "goto", "target": head, "span": span, "inlined": "Iterator::for_each with " + cd[0]}
+    stats[cd[0]] = stats.get(cd[0], 0) + 1
     return True
 
 
@@ -460,7 +609,7 @@ def expand_combinators(j):
             for i in range(len(b["blocks"])):
                 blk = b["blocks"][i]
                 if blk["term"]["k"] == "call" and not blk["cleanup"]:
-                    if expand_combinator(b, i, originals, stats) or expand_value_combinator(b, i, stats):
+                    if expand_combinator(b, i, originals, stats) or expand_value_combinator(b, i, stats) or expand_for_each(b, i, originals, stats):
                         changed = True
     # a closure is analysed in place only when every construction of it feeds an expanded call
     built = {}
